@@ -696,7 +696,7 @@ func (z *ZodRecord[T, R]) validateRecord(value map[string]any, checks []core.Zod
 				// For non-ZodError errors, propagate immediately to match strict validation behavior.
 				if zodErr, ok := errors.AsType[*issues.ZodError](keyErr); ok {
 					for _, issue := range zodErr.Issues {
-						rawIssues = append(rawIssues, issues.ConvertZodIssueToRaw(issue))
+						rawIssues = append(rawIssues, issues.ConvertZodIssueToRawWithPrependedPath(issue, []any{key}))
 					}
 				} else {
 					return nil, keyErr
@@ -971,12 +971,30 @@ func (z *ZodRecord[T, R]) validateValue(value any, schema any, ctx *core.ParseCo
 		// Check if there's an error (second return value)
 		if errInterface := results[1].Interface(); errInterface != nil {
 			if err, ok := errInterface.(error); ok {
-				return fmt.Errorf("%w '%s': %w", ErrValueValidationFailed, key, err)
+				return fmt.Errorf("%w '%s': %w", ErrValueValidationFailed, key, prefixIssuePaths(err, key))
 			}
 		}
 	}
 
 	return nil
+}
+
+// prefixIssuePaths returns err with the record key prepended to the path of every issue, so that
+// a value error addresses the entry it was found in. Errors that are not ZodErrors are returned as is.
+func prefixIssuePaths(err error, key string) error {
+	zodErr, ok := errors.AsType[*issues.ZodError](err)
+	if !ok {
+		return err
+	}
+	prefixed := make([]core.ZodIssue, len(zodErr.Issues))
+	for i, issue := range zodErr.Issues {
+		path := make([]any, 0, len(issue.Path)+1)
+		path = append(path, key)
+		path = append(path, issue.Path...)
+		issue.Path = path
+		prefixed[i] = issue
+	}
+	return issues.NewZodError(prefixed)
 }
 
 // tryGetExpectedKeys attempts to extract expected keys from an enum/literal schema via reflection.
